@@ -203,7 +203,7 @@ def run(tier="quick", seed=0):
                              replay={"module": "checks.C17", "function": "replay"}))
     entry = dict(
         name="C17.read_ampgen.vs_reference_reader", function=QUAL,
-        bound=("5 event types (D0->K-pi+pi+pi-, conjugate, D0->pi+pi-pi+pi-, D0->K+K-pi+pi-, D+->K-pi+pi+); every selection of "
+        bound=("6 event types (D0->K-pi+pi+pi-, conjugate, D0->pi+pi-pi+pi-, D0->K+K-pi+pi-, D+->K-pi+pi+, a six-body D0 with dead-end resonances below fully decayed nodes); every selection of "
                "1 or 2 of the 4..14 top-line templates per event type plus sliding windows of 3 and 4; alternative counts 0..3 "
                + ("exhaustive for the first 3 bare names of a selection" if tier == "thorough" else
                   "exhaustive for the first 2 bare names of a selection (first name only for selections of 2 or 4 lines)")
